@@ -344,6 +344,36 @@ Section FanProofs.
       + unfold nack_if_not_broadcast. destruct (is_broadcast (q_dst q)); eauto.
   Qed.
 
+  (* a long-lived dispatcher: any sequence of requests, each handled to completion before the next
+     starts.  A request sent from inside a completion callback is such a next request: the callback is
+     the dispatcher's last action on a request and every fan-out owns a fresh tracker, so nested use
+     and sequential use coincide (the harness checks exactly that on the real code). *)
+  Fixpoint sub_run (devs : list (N * device State)) (h : list request) (st : State)
+    : option (list (list reply) * State) :=
+    match h with
+    | [] => Some ([], st)
+    | q :: rest =>
+      match subdev_send State devs q st with
+      | FUseAfterFree => None
+      | FOk out st1 => match sub_run devs rest st1 with
+                       | Some (outs, st2) => Some (out :: outs, st2)
+                       | None => None
+                       end
+      end
+    end.
+  Lemma sub_run_once devs h :
+    subs_once devs -> len devs < 65536 ->
+    forall st, exists outs st', sub_run devs h st = Some (outs, st') /\
+                                length outs = length h /\ Forall (fun o => exists r, o = [r]) outs.
+  Proof.
+    intros HO LT. induction h as [|q rest IH]; intros st.
+    - exists [], st. repeat split; constructor.
+    - cbn [sub_run]. destruct (subdev_send_once devs q st HO LT) as (r & st1 & E). rewrite E.
+      destruct (IH st1) as (outs & st2 & E2 & L & F). rewrite E2.
+      exists ([r] :: outs), st2. repeat split; [cbn; rewrite L; reflexivity|].
+      constructor; [eauto|exact F].
+  Qed.
+
   (* a fanned-out SET returns the first sub-device's reply, status and (possibly absent) response *)
   Lemma fan_out_first k d rest q st :
     subs_once ((k, d) :: rest) -> len ((k, d) :: rest) < 65536 ->
